@@ -9,7 +9,7 @@
    a declared supertype (t_super (d_ty d)) and own features (t_own (d_ty d)).  below ts a d: a is d or an ancestor of d.
    has_feat ts x f: the type named x owns or inherits a feature that Feature.__eq__ identifies with f (name, range,
    element type with None = TOP, description; NOT the multipleReferencesAllowed flag: the property excludes it). *)
-From Cassis Require Import Base TS TSProofs Merge MergeProofs MergeProofs2 MergeProofs3.
+From Cassis Require Import Base TS TSProofs Merge MergeProofs MergeProofs2 MergeProofs3 MergeProofs4.
 
 (* ---- the result is a consistent type system: it satisfies the invariant WF = WFh /\ WFf of C10 / C11.  WFh: one tree
         rooted at TOP, children = inverse of supertype, every feature reference registered, own features carry their type
@@ -231,6 +231,22 @@ Print Assumptions C13_merge_nothing.
 Theorem C13_init_embedded_reflect : forall t, init_embeddedb t = true -> init_embedded t.
 Proof. exact init_embeddedb_sound. Qed.
 Print Assumptions C13_init_embedded_reflect.
+
+(* ---- REFINEMENT between the two forms of the model: the mechanism form (Type._add_feature as written: recursion into
+        _children with inherited=True, TS.add_rec) and the functional form on which the theorems above are stated give the
+        same outcome on well-formed inputs: the same merged type system (structurally, ghost ranks and constructor fields
+        included), the same owner tags, or the same error.  (The correspondence still evaluates both on every case.) ---- *)
+Theorem C13_merge_mech_refines : forall inputs, all_WFh inputs -> merge_with mech_form inputs = merge_with fn_form inputs.
+Proof. exact merge_with_mech_agrees. Qed.
+Print Assumptions C13_merge_mech_refines.
+Theorem C13_merge_mech_agrees : forall inputs, all_WFh inputs -> merge_mech inputs = merge inputs.
+Proof. exact merge_mech_agrees. Qed.
+Print Assumptions C13_merge_mech_agrees.
+(* the building block, of independent interest for C11: Type._add_feature as written agrees with its functional form
+   whenever the tree invariant holds of the SKELETON (feature references need not be registered) and WFf holds *)
+Theorem C13_add_feature_mech_skeleton : forall ts dom f, WFh (strip ts) -> WFf ts -> add_feature_mech ts dom f = add_feature_res ts dom f.
+Proof. exact add_feature_mech_HI. Qed.
+Print Assumptions C13_add_feature_mech_skeleton.
 
 (* ================================================================================================ non-vacuity *)
 Definition ex_a : tsys := final_ts [CT "a.A" ANNOTATION; CT "a.B" "a.A"; CT "a.X" "a.A"; CF "a.B" "f" "uima.cas.String" None] init_ts.
